@@ -296,6 +296,7 @@ def run(prog, chk):
     from . import c08
     c08.source_accounting(prog, chk)
     c08.stale_pointer_rule(prog, chk, rid="R7", primary=False)
+    c08.drained_mark(prog, chk)
 
     r6 = chk.rule("R6-bracket-arms-agree", "in scan_unquoted the arms for opening and for closing brackets decide `this is not a "
                   "data_/save_ header, the bracket ends the value` with the same condition: both kinds of bracket end an unquoted "
